@@ -319,6 +319,41 @@ pub fn run(ctx: &Ctx, rep: &mut Report) {
             o.rep.eval(&(GROUP, "scalar-boundary", d, k));
         }
     }
+    // ---- (ii') long encodings: far more folding rounds than any proof can have (the acceptance set has no upper
+    // bound on k), with and without a dangling element or stray bytes at the end
+    for (ri, rounds) in [18usize, 33, 63, 64, 65, 66, 69, 70, 71, 72, 100, 127, 128, 129, 255, 256, 257, 500, 1000].into_iter().enumerate() {
+        id += 1;
+        if !ctx.mine(id) {
+            continue;
+        }
+        let mut o = Oracle { rep, ctx, leg, id };
+        let d = 1 + ri % 6;
+        let n_el = 5 + d + 2 * rounds;
+        let mut base = filler(1, 1 + 32 * n_el);
+        base[0] = d as u8;
+        o.check(&format!("{rounds} folding rounds (degree {d})"), &base, true);
+        let mut b = base.clone();
+        b.extend_from_slice(&[7u8; 32]);
+        o.check(&format!("{rounds} folding rounds and a dangling element (degree {d})"), &b, true);
+        let mut b = base.clone();
+        b.push(1);
+        o.check(&format!("{rounds} folding rounds and a stray byte (degree {d})"), &b, true);
+        let mut b = base.clone();
+        b.truncate(base.len() - 1);
+        o.check(&format!("{rounds} folding rounds, one byte short (degree {d})"), &b, true);
+        o.rep.count("long_encoding_cases", 4);
+        // equality across lengths: a proof and the same proof with one more (L, R) pair are different proofs
+        let mut longer = base.clone();
+        longer.extend_from_slice(&filler(1, 64));
+        if let (Ok(pa), Ok(pb)) = (Proof::from_bytes(&base), Proof::from_bytes(&longer)) {
+            o.rep.count("equality_probes", 1);
+            if pa == pb || pb == pa {
+                let rp = json!({"tier": if ctx.thorough() {"thorough"} else {"quick"}, "seed": ctx.seed, "leg": leg, "case": id, "descr": {"what": "a proof compares equal to the same proof with one more folding round", "rounds": rounds, "degree": d}});
+                o.rep.violation("C15 equality-ignores-element [extra round]", &format!("a {rounds}-round proof compares equal to the proof decoded from the same bytes plus one more (L, R) pair"), rp);
+            }
+        }
+        o.rep.eval(&(GROUP, "long", rounds));
+    }
     // ---- (iii) random strings, (iv) mutation-fuzzed valid encodings
     let nf = if ctx.thorough() { 1500000 } else { 6000 };
     for f in 0..nf {
@@ -364,6 +399,17 @@ pub fn run(ctx: &Ctx, rep: &mut Report) {
             if !same {
                 let rp = json!({"tier": if ctx.thorough() {"thorough"} else {"quick"}, "seed": ctx.seed, "leg": leg, "case": id, "descr": {"what": "a proof is not equal to its clone / its re-decoding"}});
                 o.rep.violation("C15 equality-not-reflexive", "a decoded proof does not compare equal to its clone or to a second decoding of the same bytes", rp);
+            }
+            {
+                let mut longer = base.clone();
+                longer.extend_from_slice(&base[base.len() - 64..]);
+                if let Ok(pl) = Proof::from_bytes(&longer) {
+                    o.rep.count("equality_probes", 1);
+                    if pa == pl || pl == pa {
+                        let rp = json!({"tier": if ctx.thorough() {"thorough"} else {"quick"}, "seed": ctx.seed, "leg": leg, "case": id, "descr": {"what": "a proof compares equal to the same proof with its last round repeated", "degree": d, "rounds": k}});
+                        o.rep.violation("C15 equality-ignores-element [extra round]", &format!("a {k}-round proof compares equal to the proof decoded from the same bytes with the last (L, R) pair repeated"), rp);
+                    }
+                }
             }
             if let Ok(pb) = Proof::from_bytes(&other) {
                 if pa == pb {
